@@ -549,13 +549,6 @@ fn argument<'a>(args: &'a [String], name: &str) -> Option<&'a str> {
     args.iter().position(|a| a == name).and_then(|i| args.get(i + 1)).map(String::as_str)
 }
 
-fn scratch_dir(tag: &str) -> PathBuf {
-    let base = if std::path::Path::new("/dev/shm").is_dir() { "/dev/shm" } else { "/verif/scratch" };
-    let dir = PathBuf::from(base).join(format!("zyconc-{:>08}-{tag}", std::process::id()));
-    std::fs::create_dir_all(&dir).expect("create scratch directory");
-    dir.canonicalize().expect("canonical scratch directory")
-}
-
 fn main() {
     let args: Vec<String> = std::env::args().collect();
     if !shim::present() {
@@ -618,8 +611,6 @@ fn run(args: &[String]) {
     let runs: u64 = argument(args, "--runs").and_then(|s| s.parse().ok()).unwrap_or(100);
     let out = argument(args, "--out").expect("--out").to_string();
     let keep_events = argument(args, "--events").is_some();
-    let run_dir = scratch_dir(&format!("{shard:02}"));
-
     let mut executions = 0u64;
     let mut workloads = BTreeSet::new();
     let mut outcomes = BTreeSet::new();
@@ -635,6 +626,7 @@ fn run(args: &[String]) {
         let seed_i = mix(seed, ENGINE, index);
         let generated = workload::generate(seed_i, tier == "thorough");
         let key = mix(seed_i, 77, 0);
+        let run_dir = zysim_common::run_directory("conc", seed, index);
         let schedules = generated.schedules.max(1);
         workloads.insert(zysim_common::fnv1a(generated.workload.abstract_text().as_bytes()));
         for schedule in 0..schedules {
@@ -691,6 +683,7 @@ fn run(args: &[String]) {
                     violations.push(json!({
                         "property": "C17", "engine": "concsim", "class": class, "seed": seed.to_string(),
                         "run_index": index, "run_seed": seed_i.to_string(), "key": key.to_string(),
+                        "run_dir": run_dir.to_string_lossy(),
                         "workload": final_workload.to_json(), "message": final_message,
                         "trace": final_record["events"].as_array().map(|events| events.iter().filter(|e| e["kind"] != "expected").cloned().collect::<Vec<_>>()),
                     }));
@@ -700,9 +693,9 @@ fn run(args: &[String]) {
                 break;
             }
         }
+        let _ = std::fs::remove_dir_all(&run_dir);
         index += shards;
     }
-    let _ = std::fs::remove_dir_all(&run_dir);
     let record = json!({
         "shard": shard, "shards": shards, "tier": tier, "seed": seed.to_string(),
         "executions": executions, "workloads": workloads.iter().map(|w| w.to_string()).collect::<Vec<_>>(),
@@ -718,7 +711,9 @@ fn replay(path: &str) {
     let value: Value = serde_json::from_str(&text).expect("parse replay file");
     let workload = Workload::from_json(&value["workload"]).expect("replay file: workload");
     let key: u64 = value["key"].as_str().and_then(|s| s.parse().ok()).unwrap_or(1);
-    let run_dir = scratch_dir("rp");
+    let run_dir = PathBuf::from(value["run_dir"].as_str().unwrap_or("/dev/shm/zysim/replay"));
+    let _ = std::fs::remove_dir_all(&run_dir);
+    std::fs::create_dir_all(&run_dir).expect("create scratch directory");
     let record = run_child(&run_dir, key, &workload);
     let _ = std::fs::remove_dir_all(&run_dir);
     for event in record["events"].as_array().into_iter().flatten() {
